@@ -175,6 +175,7 @@ func (ty *types[K, V, E]) drainPair(n *node) (out string) {
 		}
 	}()
 	ticks = 0
+	afterStop = false
 	s := ty.buildPair(n, nil)
 	var got []kv
 	for has := s != nil; has; has = s.Next() {
@@ -194,6 +195,7 @@ func (ty *types[K, V, E]) forEachPair(n *node, errAt int) (out string) {
 		}
 	}()
 	ticks = 0
+	afterStop = false
 	s := ty.buildPair(n, nil)
 	var log []kv
 	var sent *visitErr
@@ -202,6 +204,7 @@ func (ty *types[K, V, E]) forEachPair(n *node, errAt int) (out string) {
 		log = append(log, kv{ty.k.prj(k), ty.v.prj(v)})
 		if idx == errAt {
 			sent = &visitErr{idx}
+			afterStop = true
 			return sent
 		}
 		if len(log) > runawayLimit {
